@@ -458,6 +458,57 @@ func jobC07(c *rt.Ctx) {
 			}
 		}
 	}
+	// many DISTINCT contexts in one process: sign under A, then 17000 (thorough 70000) cheap calls under
+	// as many different contexts (past 2^14 / 2^16 of them), sign under B, and A again: the A signature is
+	// the RFC one both times, verifies under A, the B signature does not verify under A (a bounded table
+	// of per-context material that recycles its slots)
+	c.Require("many-contexts")
+	for hi := 0; hi < 2; hi++ {
+		if !c.Take() {
+			continue
+		}
+		c.Class("many-contexts")
+		c.Distinct(fmt.Sprintf("manyctx %d", hi), true)
+		mk := func(ctx string) variantSpec {
+			if hi == 1 {
+				return variantSpec{ref.Ph, ctx}
+			}
+			return variantSpec{ref.Ctx, ctx}
+		}
+		vA, vB := mk("tenant-A"), mk("tenant-B")
+		tA := modelTriple(80, digest, vA)
+		tB := modelTriple(80, digest, vB)
+		sA1, e1 := priv.Sign(nil, digest, vA.opts(false))
+		nfill := 17000
+		if c.Thorough() {
+			nfill = 70000
+		}
+		junk := append(append([]byte{}, tA.sig[:32]...), ref.ToLE(ref.L, 32)...) // S = L (top bits clear): refused only after the prefix went into the hash
+		for i := 0; i < nfill; i++ {
+			fv := mk(fmt.Sprintf("filler-%d", i))
+			if i%2 == 0 {
+				fv = variantSpec{ref.Ctx, fmt.Sprintf("f%d", i)}
+			}
+			if i%1000 == 7 {
+				implSingleOpts(modelTriple(81, digest, fv), fv, false)
+			} else {
+				implSingleOpts(triple{tA.key, digest, junk}, fv, false)
+			}
+		}
+		c.Step(nfill)
+		sB, e2 := priv.Sign(nil, digest, vB.opts(false))
+		sA2, e3 := priv.Sign(nil, digest, vA.opts(false))
+		wantA := ref.Sign(seedOf(60), digest, vA.v, []byte(vA.ctx))
+		wantB := ref.Sign(seedOf(60), digest, vB.v, []byte(vB.ctx))
+		okA, _ := implSingleOpts(tA, vA, false)
+		okBA, _ := implSingleOpts(tB, vA, false)
+		okB, _ := implSingleOpts(tB, vB, false)
+		_, validBA, _, _ := implBatch([]triple{tB, tB, tB, tB, tA}, vA, false, rt.NewRng(c.Seed, "manyctx"))
+		if e1 != nil || e2 != nil || e3 != nil || !bytes.Equal(sA1, wantA) || !bytes.Equal(sA2, wantA) || !bytes.Equal(sB, wantB) || !okA || okBA || !okB || len(validBA) != 5 || validBA[0] || !validBA[4] {
+			c.Violation(fmt.Sprintf("C07 many-contexts variant=%s", vA.v), fmt.Sprintf("after %d calls under distinct contexts: Sign(A) RFC before/after %v/%v, Sign(B) RFC %v, A verifies under A %v, B verifies under A %v (must not), B under B %v, batch of B,B,B,B,A under A %v", nfill, bytes.Equal(sA1, wantA), bytes.Equal(sA2, wantA), bytes.Equal(sB, wantB), okA, okBA, okB, validBA),
+				map[string]interface{}{"fillers": nfill, "variant": vA.v.String()})
+		}
+	}
 	// context CONTENT: bytes that mean something to formatting, templating, C strings, UTF-8 or shells are
 	// just bytes here. Sign == RFC 8032 (model), the model's signature verifies, single and in a batch
 	c.Require("ctx-content")
